@@ -415,10 +415,9 @@ pub fn run_cluster_case(ctx: &Ctx, case: &Case) -> Outcome {
             }
             let line = render(cmd);
             let reply = c.session_send(sid, vec![line.clone()]);
-            if !c.run(&mut |_| 0, 20_000) {
-                // (e.g. the recorded resolve ping-pong: not this property's business)
-                break;
-            }
+            // (a cluster that does not become quiet, e.g. the recorded resolve ping-pong, is not this property's business:
+            // the secure keys are looked at all the same, then the case ends)
+            let settled = c.run(&mut |_| 0, 20_000);
             for node in 0..2 {
                 let now = secure(&c, node);
                 if now != before[node] {
@@ -429,7 +428,7 @@ pub fn run_cluster_case(ctx: &Ctx, case: &Case) -> Outcome {
                     break;
                 }
             }
-            if out.fail.is_some() {
+            if out.fail.is_some() || !settled {
                 break;
             }
         }
@@ -523,6 +522,11 @@ pub fn run(ctx: &Ctx, rep: &mut Report) {
                         continue;
                     }
                     cases.push(Case { session: s.to_string(), perms: p.to_string(), cmds: vec![c.clone()] });
+                    // the same command from a session connected to the primary (a case of even length): what the primary
+                    // answers ok is replicated to the secondary, which runs it with the link's rights and forwards
+                    if p.is_empty() {
+                        cases.push(Case { session: s.to_string(), perms: p.to_string(), cmds: vec![c.clone(), Cmd::AdminTouch { n: 0 }] });
+                    }
                 }
             }
         }
